@@ -459,6 +459,10 @@ func splitPeriod(mpd *m.MPD, a *asset, cfg *ResponseConfig, wTimes wrapTimes) er
 			case segmentNumber:
 				as.SegmentTemplate.PresentationTimeOffset = pto
 				segDur := int(*as.SegmentTemplate.Duration)
+				if segDur > 0 && periodDur*timeScale%segDur != 0 {
+					// this adaptation set has another segment duration than the reference representation
+					return errPeriodDuration{periodDur, segDur * 1000 / timeScale}
+				}
 				startNr := uint32(pNr*periodDur*timeScale/segDur + cfg.getStartNr())
 				as.SegmentTemplate.StartNumber = Ptr(startNr)
 			case timeLineTime:
